@@ -56,6 +56,34 @@ static long kv(const std::vector<std::string>& ts, const std::string& key, long 
     return dflt;
 }
 
+// the flag set of an exec line: alias=<name> takes the library's own named constant (TbfAlgorithmUtils::TbfOperations), flags=<n> a number
+static int flagsOf(const std::vector<std::string>& ts){
+    for(const auto& t : ts){
+        if(t.rfind("alias=", 0) == 0){
+            const std::string a = t.substr(6);
+            if(a == "p2p") return TbfAlgorithmUtils::TbfP2P;
+            if(a == "p2m") return TbfAlgorithmUtils::TbfP2M;
+            if(a == "m2m") return TbfAlgorithmUtils::TbfM2M;
+            if(a == "m2l") return TbfAlgorithmUtils::TbfM2L;
+            if(a == "l2l") return TbfAlgorithmUtils::TbfL2L;
+            if(a == "l2p") return TbfAlgorithmUtils::TbfL2P;
+            if(a == "b2t") return TbfAlgorithmUtils::TbfBottomToTopStages;
+            if(a == "transfer") return TbfAlgorithmUtils::TbfTransferStages;
+            if(a == "t2b") return TbfAlgorithmUtils::TbfTopToBottomStages;
+            if(a == "near") return TbfAlgorithmUtils::TbfNearField;
+            if(a == "far") return TbfAlgorithmUtils::TbfFarField;
+            if(a == "all") return TbfAlgorithmUtils::TbfNearAndFarFields;
+        }
+    }
+    return int(kv(ts, "flags", 63));
+}
+
+// alias=default: execute() is called without a flag argument (the library's default: the whole algorithm)
+template <class AlgoClass, class TreeClass> static void execWith(AlgoClass& algo, TreeClass& tree, const std::vector<std::string>& ts){
+    for(const auto& t : ts){ if(t == "alias=default"){ algo.execute(tree); return; } }
+    algo.execute(tree, flagsOf(ts));
+}
+
 struct Case {
     long H = 3;
     std::vector<std::array<RealType, Dim>> src, tgt;
@@ -192,7 +220,7 @@ int main(){
             else if(ctor == 2) algo.reset(new TbfAlgorithmTsm<RealType, Kernel, SpaceIndex>(*cs.config));
             else if(ctor == 3){ std::unique_ptr<Kernel> k(new Kernel(*cs.config)); algo.reset(new TbfAlgorithmTsm<RealType, Kernel, SpaceIndex>(*cs.config, *k, kv(ts, "upper", 2))); }
             else algo.reset(new TbfAlgorithmTsm<RealType, Kernel, SpaceIndex>(*cs.config, kv(ts, "upper", 2)));
-            algo->execute(*cs.tree, int(kv(ts, "flags", 63)));
+            execWith(*algo, *cs.tree, ts);
             flushLog();
         }
 #ifdef USE_SPECX
@@ -200,7 +228,7 @@ int main(){
             mock_specx_configure(int(kv(ts, "sched", 0)), (unsigned long)kv(ts, "seed", 1), int(kv(ts, "workers", 1)));
             {
                 std::unique_ptr<TbfSmSpecxAlgorithmTsm<RealType, Kernel, SpaceIndex>> algo(new TbfSmSpecxAlgorithmTsm<RealType, Kernel, SpaceIndex>(*cs.config, kv(ts, "upper", 2)));
-                algo->execute(*cs.tree, int(kv(ts, "flags", 63)));
+                execWith(*algo, *cs.tree, ts);
             }
             flushLog();
         }
@@ -210,7 +238,7 @@ int main(){
             mock_starpu_configure(int(kv(ts, "sched", 0)), (unsigned long)kv(ts, "seed", 1), int(kv(ts, "workers", 1)));
             {
                 std::unique_ptr<TbfSmStarpuAlgorithmTsm<RealType, Kernel, SpaceIndex>> algo(new TbfSmStarpuAlgorithmTsm<RealType, Kernel, SpaceIndex>(*cs.config, kv(ts, "upper", 2)));
-                algo->execute(*cs.tree, int(kv(ts, "flags", 63)));
+                execWith(*algo, *cs.tree, ts);
             }
             flushLog();
         }
@@ -222,7 +250,7 @@ int main(){
             mock_gomp_configure(mcc);
             std::unique_ptr<TbfOpenmpAlgorithmTsm<RealType, Kernel, SpaceIndex>> algo(new TbfOpenmpAlgorithmTsm<RealType, Kernel, SpaceIndex>(*cs.config, kv(ts, "upper", 2)));
             mock_gomp_configure(mc);
-            algo->execute(*cs.tree, int(kv(ts, "flags", 63)));
+            execWith(*algo, *cs.tree, ts);
             flushLog();
         }
 #endif
